@@ -367,9 +367,6 @@ struct World {
     /// everything ever paid out to claimers (the two sides of the conservation identity of C09)
     inflows: Vec<u128>,
     paid_out: Vec<u128>,
-    /// the known defect `claimed_second_asset` is reported once per history and monitor (every later
-    /// observation of the same epoch shows it again; the failure list of a run is capped)
-    defect_reported: [bool; 2],
     last: Obs,
 }
 
@@ -726,7 +723,6 @@ impl World {
             bond_start: vec![None; NUSERS],
             inflows: vec![0; nassets],
             paid_out: vec![0; nassets],
-            defect_reported: [false; 2],
             last: Obs::default(),
         };
         w.last = w.observe();
@@ -1759,33 +1755,22 @@ impl Feeflow {
                         av <= t && c <= t - av.min(t),
                         d(format!("live epoch {} asset {}: claimed {c} + available {av} exceeds total {t} (newest {newest}, grace {})", e.id, den(a), post.grace)),
                     );
-                    // the equation as stated. KNOWN DEFECT of the real code (finding C09-claimed-second-asset):
-                    // `claim` creates `epoch.claimed` from the first asset it pays and never adds an entry for
-                    // another one, so in an epoch holding several assets the rewards in the other assets are
-                    // not recorded as claimed.
-                    let defect = e.total_l.len() > 1 && !e.claimed_l.is_empty() && !e.claimed_l.iter().any(|(k, _)| *k == a) && c + av < t;
-                    if defect {
-                        mon.stat("claimed_second_asset_unrecorded");
-                        let first = !w.defect_reported[0];
-                        w.defect_reported[0] = true;
-                        mon.check_tag(
-                            "C09",
-                            "epoch_ledger",
-                            "claimed_second_asset",
-                            !first,
-                            d(format!(
-                                "live epoch {} asset {}: claimed {c} + available {av} != total {t}: the epoch holds {} and its claimed ledger {} has no entry for {}",
-                                e.id, den(a), show_led(&e.total_l), show_led(&e.claimed_l), den(a)
-                            )),
-                        );
-                    } else {
-                        mon.check(
-                            "C09",
-                            "epoch_ledger",
-                            c + av == t,
-                            d(format!("live epoch {} asset {}: claimed {c} + available {av} != total {t} (newest {newest}, grace {})", e.id, den(a), post.grace)),
-                        );
-                    }
+                    // the equation as stated, strict for every asset — also in an epoch holding several assets
+                    // (`claim` records every reward with aggregate_assets; up to the fix recorded in
+                    // known_findings.json it recorded the first asset paid only, and this check is what reports
+                    // that defect should it return)
+                    mon.check(
+                        "C09",
+                        "epoch_ledger",
+                        c + av == t,
+                        d(format!(
+                            "live epoch {} asset {}: claimed {c} + available {av} != total {t}: the epoch holds {}, available {}, claimed ledger {} (newest {newest}, grace {})",
+                            e.id, den(a), show_led(&e.total_l), show_led(&e.avail_l), show_led(&e.claimed_l), post.grace
+                        )),
+                    );
+                }
+                if e.claimed_l.len() > 1 {
+                    mon.stat("live_epoch_claimed_in_several_assets");
                 }
             }
         }
@@ -1812,7 +1797,6 @@ impl Feeflow {
             let mut sound = pre.eps.len() == post.eps.len();
             let mut ledger_drop = vec![0u128; na];
             let mut claimed_rise = vec![0u128; na];
-            let mut unrecorded = false;
             for e in &pre.eps {
                 let Some(e2) = post.ep(e.id) else {
                     sound = false;
@@ -1831,10 +1815,6 @@ impl Feeflow {
                     if a < na {
                         ledger_drop[a] += av1 - av2.min(av1);
                         claimed_rise[a] += c2 - c1.min(c2);
-                        // the known defect: a reward in an asset that `claimed` has no entry for
-                        if av1 > av2 && e2.total_l.len() > 1 && !e2.claimed_l.iter().any(|(k, _)| *k == a) {
-                            unrecorded = true;
-                        }
                     }
                     dropped += av1 - av2.min(av1);
                 }
@@ -1875,28 +1855,12 @@ impl Feeflow {
                 mon.check(
                     "C09",
                     "payout_eq_ledger_delta",
-                    sound && others && g == ledger_drop[a] && bal_fell == g && claimed_rise[a] <= g,
+                    sound && others && g == ledger_drop[a] && bal_fell == g && claimed_rise[a] == g,
                     d(format!(
                         "claim by {sender}, {}: received {g}, available fell by {}, claimed rose by {}, distributor balance fell by {bal_fell}",
                         den(a), ledger_drop[a], claimed_rise[a]
                     )),
                 );
-                if claimed_rise[a] != g {
-                    // claimed must rise by exactly the payout — except for the known defect (see epoch_ledger)
-                    if unrecorded {
-                        let first = !w.defect_reported[1];
-                        w.defect_reported[1] = true;
-                        mon.check_tag(
-                            "C09",
-                            "payout_eq_ledger_delta",
-                            "claimed_second_asset",
-                            !first,
-                            d(format!("claim by {sender}, {}: received {g} but claimed rose by {} only (an epoch holding several assets records the first one only)", den(a), claimed_rise[a])),
-                        );
-                    } else {
-                        mon.check("C09", "payout_eq_ledger_delta", false, d(format!("claim by {sender}, {}: received {g} but claimed rose by {}", den(a), claimed_rise[a])));
-                    }
-                }
             }
             mon.stat(if any_gain { "claim_ok_paid" } else { "claim_ok_zero" });
             if (0..na).filter(|a| ui < NUSERS && gain(ui, *a) > 0).count() > 1 {
